@@ -7,23 +7,72 @@ package c23seq
 import (
 	"context"
 	"errors"
+	"fmt"
 	"strings"
+	"sync"
 	"sync/atomic"
+	"time"
 
 	"github.com/openfga/openfga/internal/iterator"
 	"github.com/openfga/openfga/pkg/storage"
 )
 
-// How an input sequence ends.
+// How an input sequence ends. After its last item an input answers Next and Head with ...
 const (
-	termDone   = 0 // ErrIteratorDone after the last item
-	termErr    = 1 // a non-Done error (sticky) from Next and Head after the last item
-	termCancel = 2 // the request context is cancelled when the end is reached; Next/Head return ctx.Err() from then on
+	termDone            = 0 // ErrIteratorDone
+	termErr             = 1 // a generic non-Done error (sticky)
+	termCancel          = 2 // the request context is cancelled at that moment; Next/Head return ctx.Err() (context.Canceled) from then on
+	termDeadline        = 3 // the request context's deadline passes at that moment; Next/Head return ctx.Err() (context.DeadlineExceeded) from then on
+	termCanceledVal     = 4 // the value context.Canceled while the request context stays alive (a source whose own query context was cancelled)
+	termDeadlineVal     = 5 // the value context.DeadlineExceeded while the request context stays alive (a source whose own query timed out)
+	termWrappedCanceled = 6 // fmt.Errorf("...: %w", context.Canceled), request context alive
+	termWrappedDeadline = 7 // fmt.Errorf("...: %w", context.DeadlineExceeded), request context alive
+	termLookalike       = 8 // errors.New("iterator done"): the text of storage.ErrIteratorDone, another error value
+	numTerms            = 9
 )
 
-var termNames = []string{"done", "err", "cancel"}
+var termNames = []string{"done", "err", "cancel", "deadline", "canceled-value", "deadline-value", "wrapped-canceled", "wrapped-deadline", "done-lookalike"}
 
-var errInjected = errors.New("c23seq: injected input error")
+// baseTerms are combined freely; an extraTerms termination appears in at most one input of a case, the
+// other inputs then end in Done (bound stated in the report).
+var (
+	baseTerms  = []int{termDone, termErr, termCancel}
+	extraTerms = []int{termDeadline, termCanceledVal, termDeadlineVal, termWrappedCanceled, termWrappedDeadline, termLookalike}
+	allTerms   = []int{termDone, termErr, termCancel, termDeadline, termCanceledVal, termDeadlineVal, termWrappedCanceled, termWrappedDeadline, termLookalike}
+)
+
+var (
+	errInjected        = errors.New("c23seq: injected input error")
+	errWrappedCanceled = fmt.Errorf("c23seq: source query failed: %w", context.Canceled)
+	errWrappedDeadline = fmt.Errorf("c23seq: source query failed: %w", context.DeadlineExceeded)
+	errLookalike       = errors.New(storage.ErrIteratorDone.Error())
+)
+
+// termErrs[t]: the error value an input with termination t returns while the request context is alive.
+var termErrs = [numTerms]error{
+	termDone: storage.ErrIteratorDone, termErr: errInjected, termCancel: context.Canceled, termDeadline: context.DeadlineExceeded,
+	termCanceledVal: context.Canceled, termDeadlineVal: context.DeadlineExceeded,
+	termWrappedCanceled: errWrappedCanceled, termWrappedDeadline: errWrappedDeadline, termLookalike: errLookalike,
+}
+
+func termOf(name string) int {
+	for t, n := range termNames {
+		if n == name {
+			return t
+		}
+	}
+	return termDone
+}
+
+func isExtraTerm(t int) bool { return t >= termDeadline }
+
+// firesCtx: the termination acts on the request context itself.
+func firesCtx(t int) bool { return t == termCancel || t == termDeadline }
+
+// cancellationClassValue: an error value of the cancellation family handed out under a live context.
+func cancellationClassValue(t int) bool {
+	return t == termCanceledVal || t == termDeadlineVal || t == termWrappedCanceled || t == termWrappedDeadline
+}
 
 // filterErr is the error returned by a filter/validator stub for one item.
 type filterErr struct{ id string }
@@ -37,13 +86,15 @@ type InSpec struct {
 }
 
 func (s InSpec) term() int {
-	switch s.Term {
+	switch s.Term { // the three frequent ones without a scan
+	case "done":
+		return termDone
 	case "err":
 		return termErr
 	case "cancel":
 		return termCancel
 	}
-	return termDone
+	return termOf(s.Term)
 }
 
 func (s InSpec) sorted() bool {
@@ -84,27 +135,72 @@ func (s *stubStat) closed() bool { return s.stops.Load() > 0 || s.doneSeen.Load(
 type env struct {
 	ctx    context.Context
 	cancel context.CancelFunc
-	fired  atomic.Bool // a termCancel input reached its end and cancelled ctx
+	dl     *deadlineCtx
+	fired  atomic.Bool // the request context was cancelled (a termCancel/termDeadline input reached its end, or the script said so)
 	stats  []*stubStat
 	extra  func() // optional clean-up (close channels, ...)
 }
 
-func newEnv(cancellable bool) *env {
+// deadlineCtx is a request context whose deadline "passes" when the harness says so (no wall clock involved):
+// from then on Done() is closed and Err() is context.DeadlineExceeded, exactly what a context.WithDeadline
+// context shows once its timer has fired.
+type deadlineCtx struct {
+	mu   sync.Mutex
+	done chan struct{}
+	err  error
+}
+
+func (d *deadlineCtx) Deadline() (time.Time, bool) { return time.Time{}, false }
+func (d *deadlineCtx) Done() <-chan struct{}       { return d.done }
+func (d *deadlineCtx) Value(any) any               { return nil }
+func (d *deadlineCtx) Err() error {
+	d.mu.Lock()
+	defer d.mu.Unlock()
+	return d.err
+}
+func (d *deadlineCtx) expire(err error) {
+	d.mu.Lock()
+	defer d.mu.Unlock()
+	if d.err == nil {
+		d.err = err
+		close(d.done)
+	}
+}
+
+// ctxMode: 0 = context.Background(), 1 = cancellable, 2 = deadline context.
+func newEnvMode(mode int) *env {
 	e := &env{ctx: context.Background(), stats: make([]*stubStat, 0, 3)}
-	if cancellable {
+	switch mode {
+	case 1:
 		e.ctx, e.cancel = context.WithCancel(context.Background())
+	case 2:
+		e.dl = &deadlineCtx{done: make(chan struct{})}
+		e.ctx = e.dl
 	}
 	return e
 }
 
+func newEnv(cancellable bool) *env {
+	if cancellable {
+		return newEnvMode(1)
+	}
+	return newEnvMode(0)
+}
+
 func (e *env) fire() {
 	e.fired.Store(true)
+	if e.dl != nil {
+		e.dl.expire(context.DeadlineExceeded)
+	}
 	if e.cancel != nil {
 		e.cancel()
 	}
 }
 
 func (e *env) done() {
+	if e.dl != nil {
+		e.dl.expire(context.Canceled)
+	}
 	if e.cancel != nil {
 		e.cancel()
 	}
@@ -140,14 +236,15 @@ func (s *stub[T]) get(ctx context.Context, consume bool) (T, error) {
 		return v, nil
 	}
 	switch s.term {
-	case termErr:
-		return z, errInjected
-	case termCancel:
+	case termDone:
+	case termCancel, termDeadline:
 		s.e.fire()
 		if err := ctx.Err(); err != nil {
 			return z, err
 		}
-		return z, context.Canceled
+		return z, termErrs[s.term]
+	default:
+		return z, termErrs[s.term]
 	}
 	s.st.doneSeen.Store(true)
 	return z, storage.ErrIteratorDone
@@ -261,8 +358,9 @@ func (c *carrier[T]) rins(ins []InSpec) []*rin {
 // ---------------------------------------------------------------------------------------------------------
 // Observations.
 
-// obs is what one call returned. K: 'v' value, 'd' ErrIteratorDone, 'e' the injected input error,
-// 'c' context cancelled/deadline, 'f' a filter/validator stub error (ID = item), 'u' "head() not supported",
+// obs is what one call returned. K: 'v' value, 'd' ErrIteratorDone, 'e' an injected input error that is
+// identifiable by its value (ID = termination name; generic, wrapped cancellation-class, Done look-alike),
+// 'c' a bare context.Canceled/DeadlineExceeded (from the request context or handed out as a value by an input), 'f' a filter/validator stub error (ID = item), 'u' "head() not supported",
 // 'x' any other error (ID = message), 'o' nil result of a helper, 'l' list result of a helper.
 type obs struct {
 	K   byte
@@ -277,6 +375,9 @@ func (o obs) String() string {
 	case 'd':
 		return "Done"
 	case 'e':
+		if o.ID != "" && o.ID != "err" {
+			return "ERR(injected " + o.ID + ")"
+		}
 		return "ERR(injected)"
 	case 'c':
 		return "ERR(ctx)"
@@ -325,6 +426,12 @@ func errObs(err error) obs {
 		return obs{K: 'd'}
 	case errors.Is(err, errInjected):
 		return obs{K: 'e'}
+	case errors.Is(err, errWrappedCanceled):
+		return obs{K: 'e', ID: "wrapped-canceled"}
+	case errors.Is(err, errWrappedDeadline):
+		return obs{K: 'e', ID: "wrapped-deadline"}
+	case errors.Is(err, errLookalike):
+		return obs{K: 'e', ID: "done-lookalike"}
 	case errors.As(err, &fe):
 		return obs{K: 'f', ID: fe.id}
 	case errors.Is(err, context.Canceled), errors.Is(err, context.DeadlineExceeded):
